@@ -82,7 +82,7 @@ func specs() map[string]*spec {
 		Assumptions: []string{"refserver (conformant apart from the injected fault)", "stall = identical goroutine dumps with every client goroutine parked; watchdog firing without that signature is inconclusive"},
 	})
 	add(&spec{ID: "C09", Level: "exploration", RaceE1: true,
-		WLs: []wlSpec{{Name: "c09", Race: true, TimeoutS: 1200}},
+		WLs: []wlSpec{{Name: "c09", Race: true, TimeoutS: 1200}, {Name: "c09table", Shards: 4, TimeoutS: 600}},
 		Rule: "scenarios = 1-48 goroutines x 1-5 requests of five result kinds (object, Bool, Vector<int>, Vector<long>, Vector<object>) through MakeRequest/MakeRequestWithHintToDecoder or the generated telegram.Client methods, against a resumed session; the reference server holds answers and releases them shuffled, grouped into plain messages/containers, results and/or whole messages gzip-packed, a scripted fraction as rpc_error with a per-request code; PRNG delays at the send/receive hook points; every request carries a unique uid and the answer a stamp f(uid); oracle: every call returns exactly once with its own stamp (or its own rpc_error), no duplicates, no caller panic, child alive, no stall; distinct = distinct hook-order signatures + distinct answer-group shapes",
 		Assumptions: []string{"refserver", "hook points H3 only add delays at existing suspension points", "race reports informational except escalation E1 (both accesses inside runtime map routines)"},
 	})
